@@ -66,6 +66,8 @@ def matches(reg, t):
         return (issubclass(t, (cls, X)) if allow_sub else (t is cls or t is X)) and isinstance(t, Meta)
     if kind == 'attr+meta':
         return hasattr(t, 'marker') and isinstance(t, Meta)
+    if kind == 'raising':   # a detector that raises TypeError / ValueError for a class simply does not match it
+        return 'B' in t.__name__ or t is cls
     if kind == 'two':       # register(A-or-whatever, X): classes tuple
         return issubclass(t, (cls, X)) if allow_sub else (t is cls or t is X)
     raise AssertionError(kind)
@@ -91,6 +93,8 @@ def do_register(reg, r):
         reg.register(metaclass=Meta, priority=r['prio'])(r['fn'])
     elif kind == 'detector':
         reg.register(detector=lambda t, c=cls: t is c, priority=r['prio'])(r['fn'])
+    elif kind == 'raising':
+        reg.register(detector=lambda t, c=cls: t is c or t.__name__.index('B') >= 0, priority=r['prio'])(r['fn'])
     elif kind == 'class+attr':
         reg.register(cls, attr='marker', **kw)(r['fn'])
     elif kind == 'class+meta':
@@ -152,7 +156,7 @@ for _p in [q for q in patterns(5) if q.count('R') <= 3]:
        bounds='as registry/class, sequence %s' % _p)(_mk_class(_p, False))
 
 
-KINDS = ['class', 'attr', 'meta', 'detector', 'two', 'class+attr', 'class+meta', 'attr+meta']
+KINDS = ['class', 'attr', 'meta', 'detector', 'two', 'class+attr', 'class+meta', 'attr+meta', 'raising']
 
 
 def _mk_criteria(pattern, first_kind):
@@ -167,7 +171,8 @@ for _p in patterns(3) + patterns(4):
     for _k in KINDS:
         ob('registry/criteria/%s/%s' % (_p, _k), marks=['resolved-after-register'], budget=(90, 400), thorough_only=len(_p) > 3,
            bounds='registration criteria picked from {class, attr="marker", metaclass, detector, two classes, class+attr, '
-                  'classes+metaclass, attr+metaclass (combined criteria must hold together)} (the first registration is %s); '
+                  'classes+metaclass, attr+metaclass (combined criteria must hold together), a detector that raises ValueError for some '
+                  'classes (= no match)} (the first registration is %s); '
                   'sequence %s; resolve over {A, B(has marker), C, X(metaclass Meta), XM(metaclass and marker)}' % (_k, _p))(
             _mk_criteria(_p, _k))
 
